@@ -5,6 +5,7 @@
     case <id> cap=<n>
     get <k> block   -> entered|503 <running> <gauge> <refused>     (handler blocks until released)
     get <k> quick   -> 200|503 <running> <gauge> <refused>         (handler returns at once)
+    getv2 <k>       -> 200|503 <running> <gauge> <refused>         (GET /api/v2/silences: the API's own mount point, same limiter)
     post <k> block  -> entered|<code> <running> <gauge> <refused>
     release <k>     -> <code> <running> <gauge> <refused>
   running = GET handlers the harness sees inside the inner handler; gauge =
@@ -31,9 +32,8 @@ def common (σ : St) (what : String) (running gauge refused : String) : List Msg
   ++ (if toNat! running > σ.m.cap ∨ toNat! gauge > σ.m.cap then
         [Msg.propfail "inflight_le_cap" "over-cap" s!"running={running} gauge={gauge} cap={σ.m.cap}"] else [])
 
-def step (σ : St) (op obs : List String) : St × List Msg :=
-  match op, obs with
-  | ["get", k, kind], [res, running, gauge, refused] =>
+/-- a GET reaches the limiter; `kind` = block (the handler waits for `release`) or quick (it returns at once) -/
+def getStep (σ : St) (k kind res running gauge refused : String) : St × List Msg :=
     let (m', out) := arrive σ.m
     let blocked := kind = "block"
     let mres := match out with
@@ -51,6 +51,14 @@ def step (σ : St) (op obs : List String) : St × List Msg :=
     ({ σ' with implRunning := toNat! running, implRefused := toNat! refused },
       expectEq "get.res" mres res ++ common σ' "get" running gauge refused ++ pf
         ++ [if out.isSome then .tag "get:refused" else if blocked then .tag "get:admitted-blocking" else .tag "get:quick"])
+
+def step (σ : St) (op obs : List String) : St × List Msg :=
+  match op, obs with
+  | ["get", k, kind], [res, running, gauge, refused] => getStep σ k kind res running gauge refused
+  | ["getv2", k], [res, running, gauge, refused] =>
+    -- a GET on the API's own mount point (<prefix>/api/v2/): the same limiter, the handler returns at once
+    let (σ', msgs) := getStep σ k "quick" res running gauge refused
+    (σ', msgs ++ [.tag (if res = "503" then "getv2:refused" else "getv2:admitted")])
   | ["post", k, _], [res, running, gauge, refused] =>
     let σ' := { σ with m := AM.Sem.step σ.m .postArrive, posts := toNat! k :: σ.posts }
     let pf : List Msg :=
